@@ -41,8 +41,9 @@ LEVEL_NOTE = ("Trusted: Coq kernel + vm_compute; the hand-written models of the 
               "integers outside int64 in the data, NUL characters in text, lower-case non-ASCII letters under 'upper'. "
               "Partial: totality of the sparse constructor and exactness of its default test carry guards (known findings F-C09-3, F-C09-4, F-C09-5, each with a _refuted witness); "
               "'equal to the default' is Python/NumPy ==, so -0.0 stored under default 0.0 comes back as 0.0 and 1.0 under default 1 as the data's own kind. "
-              "Object identity (caching, aliasing of returned arrays, in-place updates of the stored values) does not exist in the pure model: it is covered by "
-              "the multi-step stream, which is checked by the property oracle on the implementation only, not by Coq. "
+              "Scripts on one column object (expand / function on the stored values / copy / change length / read an earlier expansion again) are modelled with the stored form as "
+              "explicit state (script_np, proved to generalise the single-step models and to be invariant under copy steps) and evaluated in Coq; what the model cannot express is the "
+              "caller overwriting a returned array (scribble) and the in-place / rebinding distinction - both are steps of the implementation run only, judged by the oracle. "
               "Sessions over several constant / function column objects (explicit state: current fields of each object, declared size, call count of the one stateful binding) ARE "
               "modelled (sess_run) and evaluated in Coq; the declared type of run-length / dictionary / sparse columns is not a model parameter at all (independence by construction, "
               "checked by running them under every declaration). "
@@ -57,6 +58,8 @@ COQ_CHECKS = {"rle": "c09_check_rle", "dict": "c09_check_dict", "sparse": "c09_c
 COQ_SHOW = {"rle": "c09_show_rle", "dict": "c09_show_dict", "sparse": "c09_show_sparse",
             "const": "c09_show_const", "func": "c09_show_func", "session": "c09_show_session"}
 COQ_CHECKS["session"] = "c09_check_session"
+COQ_CHECKS["script"] = "c09_check_script"
+COQ_SHOW["script"] = "c09_show_script"
 COQ_CHECKS["sparse_decl"] = "c09_check_sparse_decl"
 COQ_SHOW["sparse_decl"] = "c09_show_sparse_decl"
 # long cases (the boundary sweep) go to four extra shards per column, same check functions, so that they are
@@ -79,6 +82,8 @@ RULE = ("real RLEColumn / DictionaryColumn / SparseColumn / ConstantColumn / Fun
         "rebind configuration or length / overwrite a returned array / expand again (evaluated in Coq by sess_run and judged by the oracle); "
         "columns also DECLARE a schema default (FlatColumn default=, parsed by the declared type) that mostly occurs in the data - exhaustively all sequences of length <= 3 "
         "(thorough 4) over {a, b, null} for 6 alphabets x declared default a / b x sparse default_value None / left out; values handed over as list, tuple or ndarray; "
+        "multi-step scripts now also copy the object (copy.copy / copy.deepcopy / pickle round trip, going on with the copy or with the original) and read every "
+        "earlier expansion again, and every script is evaluated in Coq (script_np) as well as judged by the oracle; "
         "boundary sweep (fixed permutations + seeded sizes): number of dictionary entries, run length, number of runs, sparse index / total length / "
         "number of stored values, constant and function length just below, at and above 2^7, 2^8, 2^15, 2^16; "
         "a case is non-trivial when it expanded without raising and holds >= 2 elements (constant/function: length >= 1); distinct by canonical JSON")
@@ -410,17 +415,35 @@ def _observe_script(case):
         try:
             col = _build(case)
             last = None
+            rets = []  # every array materialize() handed out: [array, overwritten by the caller since]
             for at, st in enumerate(case["script"]):
                 if st == "mat":
                     stage = "mat"
                     last = col.materialize()
+                    rets.append([last, False])
                     steps.append({"mat": [enc(x) for x in last.tolist()], "mat_dtype": str(last.dtype)})
                 elif st == "scribble":
                     stage = "scribble"
                     try:
-                        steps.append({"scribbled": _scribble(last)})
-                    except (ValueError, TypeError):  # read-only or unassignable: nothing was written
-                        steps.append({"scribbled": False})
+                        did = _scribble(last)
+                        steps.append({"scribbled": did})
+                    except (ValueError, TypeError) as e:  # read-only or unassignable: nothing was written
+                        did = False
+                        steps.append({"scribbled": False, "refused": type(e).__name__})
+                    if did and rets:
+                        rets[-1][1] = True
+                elif st == "reread":
+                    # the caller looks again at every expansion it still holds (and has not overwritten itself)
+                    stage = "reread"
+                    steps.append({"reread": [None if w else {"mat": [enc(x) for x in a.tolist()], "mat_dtype": str(a.dtype)} for a, w in rets]})
+                elif st[0] == "copy":
+                    stage = "copy"
+                    import copy as _copy
+                    import pickle as _pickle
+                    dup = {"copy": _copy.copy, "deepcopy": _copy.deepcopy, "pickle": lambda c: _pickle.loads(_pickle.dumps(c))}[st[1]](col)
+                    if st[2] == "copy":
+                        col = dup  # go on with the copy; with "original" the copy is made and dropped
+                    steps.append({})
                 elif st[0] == "fn":
                     stage = "fn"
                     if st[2] == "inplace":
@@ -711,6 +734,12 @@ def _oracle_script(case, obs):
                 return why
         elif st == "scribble":
             scribbled = scribbled or steps[i].get("scribbled", False)
+        elif st == "reread":
+            mats = [j for j in range(i) if script[j] == "mat"]
+            for k, (j, now) in enumerate(zip(mats, steps[i]["reread"])):
+                if now is not None and (now["mat"] != steps[j]["mat"] or now["mat_dtype"] != steps[j]["mat_dtype"]):
+                    return (f"step {i} of {script}: the expansion returned at step {j} was {[dec(x) for x in steps[j]['mat']]!r} and now reads "
+                            f"{[dec(x) for x in now['mat']]!r} (after {done}): an expansion is the sequence at the time it was expanded")
         elif st[0] == "fn":
             if kind == "sparse":
                 d = dec(case["default"])
@@ -960,10 +989,64 @@ def to_coq(case, obs):
     return t
 
 
+_KFN = {"mul2": "Mul2", "add1": "Add1", "upper": "Upper", "catxy": "CatXY", "not": "Not"}
+
+
+def _coq_script(case, obs):
+    kind = case["col"]
+    ty = "result (list val * dtype)"
+    if kind == "func":
+        spec = "(CFunc %s %s %s)" % (_BIND[case["binding"]], coq_vals(case["cfg"]), L.Z(case["length"]))
+    elif kind == "const":
+        spec = "(CConst %s %s)" % (coq_val(case["value"]), L.Z(case["length"]))
+    elif kind == "sparse":
+        if _model_too_slow(case, obs):
+            return None
+        spec = "(CSparse %s %s)" % (coq_vals(case["values"]), coq_val(case["default"]))
+    else:
+        if _model_too_slow(case, obs):
+            return None
+        spec = "(%s %s)" % ("CRle" if kind == "rle" else "CDict", coq_vals(case["values"]))
+    one = lambda o: "(Ok (%s, %s) : %s)" % (coq_vals(o["mat"]), coq_dtype(o["mat_dtype"]), ty)
+    failed_at = obs.get("at") if "raise" in obs else None
+    terms, outs = [], []
+    if failed_at == -1:
+        outs.append("(Raise %s : %s)" % (_EXN.get(obs["raise"], "OtherError"), ty))
+    else:
+        for i, st in enumerate(case["script"]):
+            if failed_at is not None and i == failed_at:
+                if obs["stage"] == "fn":
+                    break  # the harness's own NumPy operation does not apply: the script ends before it
+                if obs["stage"] == "mat":
+                    terms.append("KMat")
+                outs.append("(Raise %s : %s)" % (_EXN.get(obs["raise"], "OtherError") if obs["stage"] == "mat" else "OtherError", ty))
+                break
+            if st == "mat":
+                terms.append("KMat")
+                outs.append(one(obs["steps"][i]))
+            elif st == "reread":
+                for k, now in enumerate(obs["steps"][i]["reread"]):
+                    if now is not None:
+                        terms.append("(KReread %s)" % _coq_nat(k))
+                        outs.append(one(now))
+            elif st == "scribble":
+                pass  # the caller writes into its own array: not a step of the column
+            elif st[0] == "fn":
+                terms.append("(KFn %s)" % _KFN[st[1]])
+            elif st[0] == "copy":
+                terms.append("KCopy")
+            elif st[0] == "length":
+                terms.append("(KLen %s)" % L.Z(st[1]))
+    term = "(%s, (%s : list kstep), (%s : list (%s)))" % (spec, L.lst(terms), L.lst(outs), ty)
+    return ("script", term) if len(term) <= _TERM_LIMIT else None
+
+
 def _to_coq(case, obs):
     kind = case["col"]
     if kind == "session":
         return _coq_session(case, obs)
+    if "script" in case:
+        return _coq_script(case, obs)
     if "script" in case:
         return None  # multi-step cases: judged by the oracle only (the pure model has no object identity to get stale)
     if obs.get("stage") == "fn":
@@ -1037,7 +1120,7 @@ def _scale_labels(case, obs):
     for name, x in q.items():
         if _band(x):
             yield "scale:%s%s" % (name, _band(x))
-    if "script" not in case and obs.get("stage") != "fn" and to_coq(case, obs) is None:
+    if obs.get("stage") != "fn" and to_coq(case, obs) is None:
         yield "scale:oracle-only(not evaluated in Coq: model steps or term size over budget)"
 
 
@@ -1078,7 +1161,7 @@ def classify(case, obs):
         yield "multi-step"
         yield "multi-step:" + kind
         for st in case["script"]:
-            yield "step:" + (st if isinstance(st, str) else st[0] + (":" + st[2] if st[0] == "fn" else ""))
+            yield "step:" + (st if isinstance(st, str) else st[0] + (":" + st[2] if st[0] == "fn" else ":" + st[1] + "->" + st[2] if st[0] == "copy" else ""))
     if "raise" in obs:
         yield "raised:" + obs["raise"] + "@" + obs["stage"]
     if kind in ("const", "func"):
@@ -1146,6 +1229,12 @@ def corpus():
     yield dict(_sparse([1, None, 2, None, None, 3], None), script=["mat", ["fn", "mul2", "rebind"], "mat", "scribble", "mat"])
     yield {"col": "const", "value": enc(3), "length": 5, "fn": None, "script": ["mat", ["fn", "mul2", "inplace"], "mat", "scribble", "mat"]}
     yield {"col": "func", "binding": "first", "cfg": [enc(10)], "length": 1, "script": ["mat", "scribble", "mat", ["length", 10], "mat"]}
+    # a copied / pickled column is an equal column; an earlier expansion stays what it was
+    yield dict(_sparse([0], 0), script=[["copy", "deepcopy", "copy"], "mat"])
+    yield {"col": "rle", "values": [enc(v) for v in [1, 1, 2, 2, 2]], "fn": None, "script": [["copy", "pickle", "copy"], "mat", ["copy", "copy", "copy"], "mat"]}
+    yield {"col": "dict", "values": [enc(v) for v in ["b", "a", "b"]], "fn": None, "script": ["mat", ["copy", "pickle", "copy"], "mat", "reread"]}
+    yield {"col": "const", "value": enc(3), "length": 1, "fn": None, "script": ["mat", ["fn", "mul2", "inplace"], "reread"]}
+    yield {"col": "const", "value": enc(3), "length": 2, "fn": None, "script": [["fn", "mul2", "rebind"], ["copy", "deepcopy", "copy"], "mat"]}
     # the shipped tests
     yield _sparse(["31", None, "31", None, None, "31", "30", "31", None], None)
     yield _sparse([1, None, 2, None, None, 3, 4, 5, None], None, "mul2")
@@ -1187,6 +1276,10 @@ def _scripts(f, g, g_inplace):
         ["mat", ["fn", f, "rebind"], "mat", "scribble", "mat", ["fn", g, "rebind"], "mat"],
         ["mat", "scribble", "mat", ["fn", f, "inplace"], "mat", ["fn", g, gi], "mat"],
         [["fn", f, "inplace"], "mat", "mat"],
+        # an earlier expansion read again after the stored values changed; the object copied and the COPY expanded
+        ["mat", ["fn", f, "inplace"], "reread", ["copy", "deepcopy", "copy"], "mat", "reread"],
+        [["fn", f, "rebind"], ["copy", "pickle", "copy"], "mat", ["copy", "copy", "original"], ["fn", g, gi], "mat", "reread"],
+        [["copy", "copy", "copy"], "mat", ["fn", f, "inplace"], ["copy", "pickle", "original"], "mat", "scribble", "reread", "mat"],
     ]
 
 
@@ -1524,6 +1617,8 @@ def exhaustive(tier):
             for v in (3, "abc", None, 1.5, True):
                 yield {"col": "func", "binding": "first", "cfg": [enc(v)], "length": n,
                        "script": ["mat", "scribble", "mat", ["length", n + 2], "mat", "scribble", "mat"]}
+                yield {"col": "func", "binding": "last", "cfg": [enc(0), enc(v)], "length": n,
+                       "script": ["mat", ["copy", "deepcopy", "copy"], "mat", ["length", n + 1], ["copy", "copy", "copy"], "mat", "reread"]}
         for n in range(0, top + 1):
             for v in (3, "abc", None, 1.5, True):
                 yield {"col": "const", "value": enc(v), "length": n, "fn": None}
@@ -1675,12 +1770,14 @@ def _fns_available(kind, seq, nulls_stored):
     return []
 
 
-def _random_script(rng, fns, extra=()):
+def _random_script(rng, fns, extra=(), pickle_ok=True):
     steps = []
     nfn = 0
     for _ in range(rng.randint(3, 7)):
         r = rng.random()
-        if r < 0.3 and fns and nfn < 2:
+        if rng.random() < 0.2:
+            steps.append(rng.choice(["reread", ["copy", rng.choice(["copy", "deepcopy"] + (["pickle"] if pickle_ok else [])), rng.choice(["copy", "copy", "original"])]]))
+        elif r < 0.3 and fns and nfn < 2:
             f, inplace_ok = rng.choice(fns)
             steps.append(["fn", f, rng.choice(["inplace", "rebind"]) if inplace_ok else "rebind"])
             nfn += 1
@@ -1692,6 +1789,8 @@ def _random_script(rng, fns, extra=()):
             steps.append("mat")
     if steps.count("mat") < 2:
         steps = ["mat"] + steps + ["mat"]
+    if rng.random() < 0.5:
+        steps.append("reread")
     return steps
 
 
@@ -1722,7 +1821,7 @@ def _random_script_case(rng):
         fns = [] if v is None else _fns_available(kind, [v], False)
         return {"col": "const", "value": enc(v), "length": n, "fn": None, "script": _random_script(rng, fns, lengths)}
     cfg = [enc(rng.choice(rng.choice([_INTS, _FLOATS, _TEXTS, _BOOLS, [None]]))) for _ in range(rng.randint(1, 3))]
-    return {"col": "func", "binding": rng.choice(["first", "last", "null"]), "cfg": cfg, "length": n, "script": _random_script(rng, [], lengths)}
+    return {"col": "func", "binding": rng.choice(["first", "last", "null"]), "cfg": cfg, "length": n, "script": _random_script(rng, [], lengths, pickle_ok=False)}
 
 
 def generate(rng, tier):
